@@ -247,7 +247,6 @@ pub fn run_session(sc: &Scenario, root: &Path, stats: &mut Stats, nontrivial: fn
                         *stats.probes.entry("change-applied-during-a-build".into()).or_insert(0) += inside;
                     }
                 }
-                stats.sim_ticks += r.footer.as_ref().map(|f| f.clock).unwrap_or(0).saturating_sub(inv.plan.clock_start);
                 if is_watch && stats.sample.is_none() {
                     let mut s = sample_of(sc, inv, &r);
                     s["plan_events_detail"] = serde_json::json!(inv.plan.events);
